@@ -167,7 +167,9 @@ class ExternalVariableCollector(NodeVisitor):
         else:
             if node.lineno in self.comments:
                 self.vardoc[node.id] = self.comments[node.lineno]
-            self.provenance[node.id] = "body"
+            # A parameter or closure variable that is reassigned in the body
+            # keeps its provenance
+            self.provenance.setdefault(node.id, "body")
             self.assigned.add(node.id)
 
     def visit_ExceptHandler(self, node):
